@@ -42,6 +42,11 @@ type unitWithSender struct {
 	sender peer.ID
 }
 
+// errFirstUnitInvalid ends a subprocessor whose first unit failed validation. Nothing is known
+// about the message yet, so its key must not be remembered as finalized: that would let a single
+// forged unit make the node ignore every honest unit of the message that arrives later.
+var errFirstUnitInvalid = errors.New("couldn't validate first unit received")
+
 type subprocessor struct {
 	scheduler       *Scheduler
 	localPeer       peer.ID
@@ -137,7 +142,7 @@ func (s *subprocessor) beforeMessageBuiltStage(ctx context.Context) (
 				// if this is the first unit we are receiving, finish abruptly since
 				// it can be a DOS attack.
 				if unitCount == 0 {
-					return 0, nil, fmt.Errorf("couldn't validate first unit received: %w", err)
+					return 0, nil, fmt.Errorf("%w: %w", errFirstUnitInvalid, err)
 				}
 				continue
 			}
@@ -373,7 +378,11 @@ func (p *Processor) Run(ctx context.Context) {
 					zap.String("message key", finalizedSubP.messageKey.String()),
 				)
 			}
-			p.finalize(&finalizedSubP.messageKey)
+			if errors.Is(finalizedSubP.error, errFirstUnitInvalid) {
+				p.discard(&finalizedSubP.messageKey)
+			} else {
+				p.finalize(&finalizedSubP.messageKey)
+			}
 
 		case invalidUnit := <-p.invalidUnits:
 			p.logger.Error(
@@ -500,6 +509,12 @@ func (p *Processor) subprocessorChannel(
 		return nil, fmt.Errorf("creating new subprocessor: %w", err)
 	}
 	return unitChan, nil
+}
+
+// discard forgets a subprocessor without marking its message as finalized.
+func (p *Processor) discard(key *messageKey) {
+	p.decreaseTask(key.Publisher)
+	delete(p.subProcessors, *key)
 }
 
 func (p *Processor) finalize(key *messageKey) {
